@@ -146,3 +146,7 @@ impl<FB: FrameBuffer> ZXBorder<FB> {
         &self.buffer
     }
 }
+
+#[cfg(kani)]
+#[path = "/verif/hooks/core/border.rs"]
+mod verif_hooks;
